@@ -242,6 +242,38 @@ M["m36-C13-second-set-replaces-same-field"] = ("C13", [(Q, '''        value = se
             self._updates.append((field, value))
 ''')])
 
+M["m45-C15-mutable-builder-copy-shares-lists"] = ("C15", [(Q, '''        newone = type(self).__new__(type(self))
+        newone.__dict__.update(self.__dict__)
+        newone._from = copy(self._from)
+''', '''        newone = type(self).__new__(type(self))
+        newone.__dict__.update(self.__dict__)
+        if not self.immutable:
+            return newone  # in-place builders never go through the builder decorator's copy
+        newone._from = copy(self._from)
+''')])
+M["m46-C15-schema-getattr-unguarded"] = ("C15", [(Q, '''    @ignore_copy
+    def __getattr__(self, item: str) -> "Table":
+        return Table(item, schema=self)
+''', '''    def __getattr__(self, item: str) -> "Table":
+        return Table(item, schema=self)
+''')])
+M["m47-C15-table-reduce-drops-temporal-clause"] = ("C15", [(Q, '''    def get_table_name(self) -> str:
+        return self.alias or self._table_name
+
+    def get_sql(self, ctx: SqlContext) -> str:
+        # FIXME escape
+        table_sql = format_quotes(self._table_name, ctx.quote_char)
+''', '''    def get_table_name(self) -> str:
+        return self.alias or self._table_name
+
+    def __reduce__(self):  # type:ignore[no-untyped-def]
+        # compact pickles: a table is its constructor arguments
+        return (Table, (self._table_name, self._schema, self.alias, self._query_cls))
+
+    def get_sql(self, ctx: SqlContext) -> str:
+        # FIXME escape
+        table_sql = format_quotes(self._table_name, ctx.quote_char)
+''')])
 M["m40-C15-ignore_copy-misses-deepcopy"] = ("C15", [(U, '''            "__copy__",
             "__deepcopy__",
 ''', '''            "__copy__",
